@@ -214,3 +214,23 @@ def main(ctx):
         "(r,s) and the reference verdict. Non-trivial = s > n/2 (the encoder "
         "must reflect). Distinct by construction." % top)
     return rep
+
+
+def mixed_cases(ctx):
+    """orders of equal byte length interleaved in one process"""
+    from ecdsa import curves as cv
+    groups = []
+    for names in catalog.same_length_groups():
+        items = []
+        for nm in names:
+            n = int(getattr(cv, nm).order)
+            for s in (n // 2 - 2, n // 2, n // 2 + 1, n // 2 + 3, n - 1, 1):
+                for kind in KINDS:
+                    items.append(("enc", dict(kind=kind, r=1, s=s, n=n)))
+        groups.append(items)
+    toy = []
+    for n in (251, 253, 255, 256, 257, 509, 65535, 65537):
+        for s in (n // 2 - 1, n // 2, n // 2 + 1, n // 2 + 2):
+            toy.append(("enc", dict(kind="string", r=1, s=s, n=n)))
+    groups.append(toy)
+    return groups
